@@ -94,6 +94,25 @@ class ContinueParentStageHandler(StabilizeHandler[ContinueParentStage]):
 
         self.with_stage(message, on_stage)
 
+    def _record_parent_failed(self, stage: StageExecution) -> None:
+        """Record STAGE_FAILED for a parent this handler marks TERMINAL.
+
+        Called inside the store transaction so the event commits with the
+        state change. Without it the parent's failure is the only stage
+        completion that leaves no trace in the event log: CompleteStage later
+        finds the stage already complete and records nothing, and a replay
+        shows the stage RUNNING forever.
+        """
+        if not self.event_recorder:
+            return
+        self.set_event_context(stage.execution.id if stage.execution else "")
+        error = stage.context.get("exception", {}).get("details", {}).get("error", "Synthetic stage failed")
+        self.event_recorder.record_stage_failed(
+            stage,
+            error=str(error),
+            source_handler="ContinueParentStageHandler",
+        )
+
     def _handle_before_phase(
         self,
         stage: StageExecution,
@@ -121,6 +140,7 @@ class ContinueParentStageHandler(StabilizeHandler[ContinueParentStage]):
             # Use atomic transaction to ensure state and message are committed together
             self.txn_helper.execute_atomic(
                 stage=stage,
+                in_transaction=lambda: self._record_parent_failed(stage),
                 source_message=message,
                 messages_to_push=[
                     (
@@ -156,6 +176,7 @@ class ContinueParentStageHandler(StabilizeHandler[ContinueParentStage]):
                 }
                 self.txn_helper.execute_atomic(
                     stage=stage,
+                    in_transaction=lambda: self._record_parent_failed(stage),
                     source_message=message,
                     messages_to_push=[
                         (
@@ -288,6 +309,7 @@ class ContinueParentStageHandler(StabilizeHandler[ContinueParentStage]):
             stage.end_time = self.current_time_millis()
             self.txn_helper.execute_atomic(
                 stage=stage,
+                in_transaction=lambda: self._record_parent_failed(stage),
                 source_message=message,
                 messages_to_push=[
                     (
@@ -323,6 +345,7 @@ class ContinueParentStageHandler(StabilizeHandler[ContinueParentStage]):
                 }
                 self.txn_helper.execute_atomic(
                     stage=stage,
+                    in_transaction=lambda: self._record_parent_failed(stage),
                     source_message=message,
                     messages_to_push=[
                         (
